@@ -13,6 +13,7 @@ import PV.C16.RowsExec
 import PV.C16.WithRows
 import PV.C16.GroupBy
 import PV.C16.Iter1
+import PV.C16.Iter2
 namespace PV.C16
 open List
 
@@ -594,17 +595,22 @@ PROVED (named theorems below in this file):
   * `C16_paging_groupby` — on the specification: a request whose children carry group `g` as
     `previous` is the page after `g` (`lexGE_bumpLast`), and pages requested until exhaustion
     concatenate to the whole answer (lexicographic instance of `Paging.pagePrev_all`).
-  * `C16_groupby_shard_single` — the iterator itself for ONE field: `newGroupByIterator` with
-    `previous` (seek), `nextAtIdx` (skipping rows without a bit in the filter), `Next`, the result
-    loop and the fuel of the model, = the rows after `previous` with a bit in the filter, exact
-    counts, first limit+offset.
+  * `C16_groupby_one_field` — the FULL theorem for GroupBy over one field (children without limit /
+    column): `groupBy db a shards = Spec.groupBy db a shards`, through the real iterator model incl.
+    its fuel (`C16_groupby_shard_single`, `groupByShard_single_spec`: what a shard returns is
+    `(Spec.shardGroups …).take (limit+offset)`), the merge and the slicing.
+  * `nextAtIdx_succ_two` — for TWO fields, `nextAtIdx` at the last field is the odometer successor
+    with pruning, with the model's fuel: next row of the second field if any; otherwise the second
+    field wraps to its first row and the first field moves to its next row with a bit inside the
+    filter (rows without one are skipped), `done` when there is none.
   * `C16_groupby_partial` (this theorem) — the limit+offset fetch and slicing.
 NOT PROVED (checked on every run by correspondence + the `#spec` oracle, generator `genGroupCase`):
-  * `hshard` for TWO OR MORE fields: `gbiInit` leaves the iterators on the least combination ≥ start
-    (ignorePrev after an overshoot or a wrap, `advanceLeft`), `nextAtIdx` is the odometer successor
-    with pruning of prefixes whose intersection is empty, and the fuel of the model suffices;
-  * for one field: rewriting the right-hand side of `C16_groupby_shard_single` as
-    `(Spec.shardGroups …).take` (the fragment's rows are a sub-list of the field's rows over all shards);
+  * `hshard` of `C16_groupby_of_shards` for TWO OR MORE fields. For two fields the successor step is
+    proved; missing: `gbiInit` leaves the iterators on the least combination ≥ start (seek of both
+    fields, ignorePrev after an overshoot or a wrap, `advanceLeft`), `gbiNext`/`gbiCollect` over the
+    two-field stream (as `gbiNext_single`/`gbiCollect_single` do for one field), and the rewriting as
+    `(Spec.shardGroups …).take`. For three or more fields also the successor step with middle fields
+    (`inter nr rows[i-1]`, nested carries) and the fuel bound.
   * children with limit / column (`filterWithRows` domains: `C16_rows_withRows`, `C16_rows_exec` give
     the domains, the glue is missing). -/
 theorem C16_groupby_partial (all : List PV.C17.GroupCount) (o l : Nat) :
@@ -771,6 +777,248 @@ theorem C16_groupby_shard_single (db : DB) (a : GroupByArgs) (ch : ChildArgs) (h
   have := stream1_length_le st (a.filter.map (· sh)) (fragRows st 0 []) (start1 (fragRows st 0 []) ch.previous)
   simp only [Nat.min_def]
   split <;> split <;> omega
+
+theorem tuples_single (D : List Nat) : Spec.tuples [D] = D.map (fun r => [r]) := by
+  simp only [Spec.tuples, List.map_cons, List.map_nil]
+  induction D with
+  | nil => rfl
+  | cons d ds ih => simp only [List.flatMap_cons, List.map_cons]; rw [ih]; rfl
+
+/-- on an ascending list, dropping up to the first element ≥ b keeps exactly the elements ≥ b -/
+theorem drop_findIdx_sorted (R : List Nat) (hs : R.Pairwise (· < ·)) (b : Nat) :
+    R.drop (R.findIdx (fun x => decide (x ≥ b))) = R.filter (fun x => decide (x ≥ b)) := by
+  induction R with
+  | nil => rfl
+  | cons x xs ih =>
+    have hp := List.pairwise_cons.mp hs
+    by_cases hx : x ≥ b
+    · have : (x :: xs).findIdx (fun x => decide (x ≥ b)) = 0 := by simp [List.findIdx_cons, hx]
+      rw [this, List.drop_zero]
+      symm
+      apply List.filter_eq_self.mpr
+      intro y hy
+      rcases List.mem_cons.mp hy with e | hy'
+      · rw [e]; simpa using hx
+      · have := hp.1 y hy'; simp; omega
+    · have hd : decide (x ≥ b) = false := by simpa using hx
+      simp only [List.findIdx_cons, hd, cond_false, List.drop_succ_cons, List.filter_cons, Bool.false_eq_true, if_false]
+      exact ih hp.2
+
+theorem colsIn_nil_of_no_bits (st : Store) (f : Option (List Nat)) (r : Nat) (h : ∀ p ∈ st, p.1 ≠ r) :
+    colsIn st f r = [] := by
+  have : st.row r = [] := by
+    simp only [Store.row, List.map_eq_nil_iff, List.filter_eq_nil_iff]
+    intro p hp; simpa using h p hp
+  cases f <;> simp [colsIn, this, inter]
+
+
+theorem shardGroupCount_single (db : DB) (fld r sh : Nat) (filter : Option (Nat → List Nat)) (st : Store)
+    (hf : db.frag ⟨fld, none, sh⟩ = some st) :
+    Spec.shardGroupCount db [fld] [r] filter sh = (colsIn st (filter.map (· sh)) r).length := by
+  unfold Spec.shardGroupCount
+  simp only [List.zip_cons_cons, List.zip_nil_right, List.map_cons, List.map_nil, hf, List.foldl_nil]
+  cases filter <;> rfl
+
+theorem shardGroupCount_single_none (db : DB) (fld r sh : Nat) (filter : Option (Nat → List Nat))
+    (hf : db.frag ⟨fld, none, sh⟩ = none) : Spec.shardGroupCount db [fld] [r] filter sh = 0 := by
+  unfold Spec.shardGroupCount
+  simp only [List.zip_cons_cons, List.zip_nil_right, List.map_cons, List.map_nil, hf, List.foldl_nil]
+  cases filter <;> simp [inter]
+
+theorem startOK_single (a : GroupByArgs) (ch : ChildArgs) (hch : a.children = [ch]) (r : Nat) :
+    Spec.startOK a [r] = (match ch.previous with
+      | none => true
+      | some p => decide (r ≥ p + 1)) := by
+  unfold Spec.startOK Spec.startTuple
+  rw [hch]
+  cases hp : ch.previous with
+  | none => simp [hp]
+  | some p =>
+    simp only [List.all_cons, hp, Option.isSome_some, List.all_nil, Bool.and_self, List.length_cons, List.length_nil,
+      Nat.zero_add, Nat.lt_add_one, decide_true, if_true, List.map_cons, List.map_nil, Option.getD_some,
+      Spec.bumpLast, Spec.lexGE]
+    by_cases h1 : r > p + 1
+    · simp [h1] <;> omega
+    · by_cases h2 : r < p + 1
+      · simp [h1, h2] <;> omega
+      · have : r = p + 1 := by omega
+        subst this; simp
+
+def okAfter (prev : Option Nat) (r : Nat) : Bool :=
+  match prev with
+  | none => true
+  | some p => decide (r ≥ p + 1)
+
+/-- the stream of the one-field iterator over the fragment's rows `R`, as a filterMap over any
+ascending superset `D` of `R` -/
+theorem single_glue (st : Store) (f : Option (List Nat)) (R D : List Nat)
+    (hRs : R.Pairwise (· < ·)) (hDs : D.Pairwise (· < ·)) (hsub : ∀ r ∈ R, r ∈ D)
+    (hoff : ∀ r, r ∉ R → colsIn st f r = []) (prev : Option Nat) :
+    (stream1 st f R (start1 R prev)).map (fun p => (⟨p.1, p.2⟩ : GroupCount)) =
+      D.filterMap (fun r => if (colsIn st f r).length > 0 ∧ okAfter prev r = true then
+        some (⟨[r], (colsIn st f r).length⟩ : GroupCount) else none) := by
+  have hDR : D.filter (fun r => decide (r ∈ R)) = R := by
+    apply sorted_ext _ _ (hDs.filter _) hRs
+    intro x
+    simp only [List.mem_filter, decide_eq_true_eq]
+    exact ⟨fun h => h.2, fun h => ⟨hsub x h, h⟩⟩
+  have hDg : ∀ g : Nat → Option GroupCount, (∀ r, r ∉ R → g r = none) → D.filterMap g = R.filterMap g := by
+    intro g hg
+    conv => rhs; rw [← hDR]
+    rw [List.filterMap_filter]
+    apply filterMap_congr_mem
+    intro r _
+    by_cases hr : r ∈ R
+    · simp [hr]
+    · simp [hr, hg r hr]
+  rw [hDg _ (fun r hr => by rw [hoff r hr]; simp)]
+  unfold stream1
+  rw [List.map_filterMap]
+  cases prev with
+  | none =>
+    simp only [start1, List.drop_zero]
+    apply filterMap_congr_mem
+    intro r _
+    unfold emit1
+    by_cases hz : (colsIn st f r).length = 0
+    · simp [hz, okAfter]
+    · have : (colsIn st f r).length > 0 := Nat.pos_of_ne_zero hz
+      simp [hz, this, okAfter]
+  | some p =>
+    simp only [start1]
+    rw [drop_findIdx_sorted R hRs (p + 1), List.filterMap_filter]
+    apply filterMap_congr_mem
+    intro r _
+    unfold emit1
+    by_cases hz : (colsIn st f r).length = 0
+    · by_cases hge : r ≥ p + 1 <;> simp [hz, hge, okAfter]
+    · have : (colsIn st f r).length > 0 := Nat.pos_of_ne_zero hz
+      by_cases hge : r ≥ p + 1 <;> simp [hz, this, hge, okAfter]
+
+/-- One field: what the shard's iterator returns (`C16_groupby_shard_single`) is the first
+limit+offset of the shard's groups of the specification. -/
+theorem groupByShard_single_spec (db : DB) (hwf : db.WF) (a : GroupByArgs) (ch : ChildArgs)
+    (hch : a.children = [ch]) (hplain : ch.limit = none ∧ ch.column = none)
+    (shards : List Nat) (sh : Nat) (hsh : sh ∈ shards) :
+    groupByShard db a (a.children.map (fun _ => [])) sh =
+      (Spec.shardGroups db a shards sh).take (fetchLimit a) := by
+  have hpl : ∀ c ∈ a.children, c.limit = none ∧ c.column = none := by
+    intro c hc; rw [hch] at hc; simp at hc; rw [hc]; exact hplain
+  have hdoms : Spec.groupDoms db a shards = [Spec.fieldRows db ch.field shards] := by
+    rw [groupDoms_plain db a shards hpl, hch]; rfl
+  have hfields : a.children.map (·.field) = [ch.field] := by rw [hch]; rfl
+  have hcr : a.children.map (fun _ => ([] : List Nat)) = [[]] := by rw [hch]; rfl
+  rw [hcr]
+  unfold Spec.shardGroups
+  rw [hdoms, hfields, tuples_single, List.filterMap_map]
+  cases hf : db.frag ⟨ch.field, none, sh⟩ with
+  | none =>
+    have hl : groupByShard db a [[]] sh = [] := by
+      unfold groupByShard; simp [hch, hf]
+    rw [hl]
+    have : (Spec.fieldRows db ch.field shards).filterMap
+        ((fun t => Spec.groupOf a t (Spec.shardGroupCount db [ch.field] t a.filter sh)) ∘ fun r => [r]) = [] := by
+      apply List.filterMap_eq_nil_iff.mpr
+      intro r _
+      simp only [Function.comp, shardGroupCount_single_none db ch.field r sh a.filter hf, Spec.groupOf]
+      simp
+    rw [this]; simp
+  | some st =>
+    have hst : st.WF := hwf.2 _ ((db.frag_iff hwf _ st).mp hf)
+    rw [C16_groupby_shard_single db a ch hch sh st hf, fragRows_all st hst, List.map_take]
+    congr 1
+    have hsub : ∀ r ∈ Spec.storeRows st, r ∈ Spec.fieldRows db ch.field shards := by
+      intro r hr
+      simp only [Spec.storeRows, mem_sortDedup, List.mem_map] at hr
+      obtain ⟨p, hp, hpr⟩ := hr
+      simp only [Spec.fieldRows, mem_sortDedup, List.mem_flatMap, List.mem_filter, List.mem_map]
+      refine ⟨(⟨ch.field, none, sh⟩, st), ⟨(db.frag_iff hwf _ st).mp hf, ?_⟩, p, hp, hpr⟩
+      simp [hsh]
+    have hoff : ∀ r, r ∉ Spec.storeRows st → colsIn st (a.filter.map (· sh)) r = [] := by
+      intro r hr
+      apply colsIn_nil_of_no_bits
+      intro p hp e
+      apply hr
+      simp only [Spec.storeRows, mem_sortDedup, List.mem_map]
+      exact ⟨p, hp, e⟩
+    rw [single_glue st (a.filter.map (· sh)) (Spec.storeRows st) (Spec.fieldRows db ch.field shards)
+      (sorted_sortDedup _) (sorted_sortDedup _) hsub hoff ch.previous]
+    apply filterMap_congr_mem
+    intro r _
+    simp only [Function.comp, Spec.groupOf, shardGroupCount_single db ch.field r sh a.filter st hf,
+      startOK_single a ch hch r, Bool.and_eq_true, decide_eq_true_eq]
+    cases ch.previous <;> rfl
+
+/-- **GroupBy over one field, end to end** (children without limit / column; `previous`, `limit`,
+`offset`, `filter` arbitrary): the model of the code — `newGroupByIterator`, `nextAtIdx`, `Next` and
+the result loop with their fuel on every shard, `mergeGroupCounts` over the shards with the fetch
+limit, offset and limit slicing — returns exactly the specification: every row with a non-zero
+total count (inside the filter) after `previous`, ascending, exact totals, sliced. -/
+theorem C16_groupby_one_field (db : DB) (hwf : db.WF) (a : GroupByArgs) (ch : ChildArgs)
+    (hch : a.children = [ch]) (hplain : ch.limit = none ∧ ch.column = none) (shards : List Nat)
+    (hsmall : (Spec.allGroups db a shards).length ≤ noLimit)
+    (hlim : ∀ l, a.limit = some l → l + a.offset.getD 0 < noLimit) :
+    groupBy db a shards = Spec.groupBy db a shards := by
+  apply C16_groupby_of_shards db a shards _ hsmall hlim
+  · intro sh hsh
+    exact groupByShard_single_spec db hwf a ch hch hplain shards sh hsh
+  · intro c hc; rw [hch] at hc; simp at hc; rw [hc]; exact hplain
+
+/-! #### the per-shard iterator, two fields: the successor step -/
+
+/-- `nextAtIdx` at the last of two fields is the odometer successor with pruning: the next row of
+the second field if there is one; otherwise the second field wraps to its first row and the first
+field moves to its next row that has a bit inside the filter (rows without one are pruned: every
+combination with them has count 0); `done` when the first field has no such row left. The fuel of
+the model (anything ≥ |A| - i + 1) suffices. -/
+theorem nextAtIdx_succ_two (sa sb : Store) (f : Option (List Nat)) (A B : List Nat)
+    (hB : ∀ b ∈ B, sb.row b ≠ []) (fuel i j : Nat) (hi : i < A.length) (hj : j < B.length)
+    (hf : fuel ≥ A.length - i + 1) (g' : GBI) (hg : g' = nextAtIdx fuel (st2 sa sb f A B i j) 1) :
+    (j + 1 < B.length → g' = st2 sa sb f A B i (j + 1)) ∧
+    (j + 1 ≥ B.length →
+      (g'.done = true ∧ ∀ k, i < k → k < A.length → colsIn sa f (A.getD k 0) = []) ∨
+      (∃ i', i < i' ∧ i' < A.length ∧ colsIn sa f (A.getD i' 0) ≠ [] ∧
+        (∀ k, i < k → k < i' → colsIn sa f (A.getD k 0) = []) ∧ g' = st2 sa sb f A B i' 0)) := by
+  subst hg
+  cases fuel with
+  | zero => omega
+  | succ fuel =>
+    have hBne : B ≠ [] := by intro e; rw [e] at hj; simp at hj
+    have hrow : ∀ k, k < B.length → (sb.row (B.getD k 0)).isEmpty = false := by
+      intro k hk
+      have hm : B.getD k 0 ∈ B := by
+        rw [List.getD_eq_getElem?_getD, List.getElem?_eq_getElem hk]; exact List.getElem_mem _
+      cases h : (sb.row (B.getD k 0)).isEmpty with
+      | false => rfl
+      | true => exact absurd (List.isEmpty_iff.mp h) (hB _ hm)
+    constructor
+    · intro hlt
+      unfold nextAtIdx
+      have hnot : ¬ (j + 1 ≥ B.length) := by omega
+      have hr := hrow (j + 1) hlt
+      simp only [st2, s2, List.getElem?_cons_succ, List.getElem?_cons_zero, RowIter.next, hnot, if_false,
+        Bool.false_eq_true, false_and, setAt_pair1, List.length_cons, List.length_nil, Nat.zero_add,
+        Nat.reduceAdd, Nat.add_one_sub_one, if_true, Nat.succ_ne_zero, hr, Bool.not_false]
+    · intro hge
+      have h0 := nextAtIdx_two_level0 sa sb f A { ids := B, cur := 1, wrap := true }
+        (sb.row (B.getD j 0), B.getD j 0) fuel i hi (by omega)
+      unfold nextAtIdx
+      have hemp : B.isEmpty = false := by cases B <;> simp at hBne ⊢
+      have hr := hrow 0 (by omega)
+      simp only [st2, s2, List.getElem?_cons_succ, List.getElem?_cons_zero, RowIter.next, hge, if_true,
+        Bool.not_true, hemp, Bool.or_false, Bool.false_eq_true, if_false, setAt_pair1, true_and,
+        Nat.succ_ne_zero, ne_eq, not_false_eq_true, Nat.add_one_sub_one, or_self, and_true]
+      rcases h0 with ⟨hd, hall⟩ | ⟨i', h1, h2, h3, h4, h5⟩
+      · left
+        simp only [s2] at hd
+        simp only [hd, if_true]
+        exact ⟨trivial, hall⟩
+      · right
+        refine ⟨i', h1, h2, h3, h4, ?_⟩
+        simp only [s2] at h5
+        rw [h5]
+        simp only [Bool.false_eq_true, if_false, List.length_cons, List.length_nil, Nat.zero_add, Nat.reduceAdd,
+          Nat.add_one_sub_one, if_true, Nat.succ_ne_zero, setAt_pair1, hr, Bool.not_false]
 
 /-! #### paging GroupBy by `previous` -/
 
